@@ -9,6 +9,7 @@ import (
 	"bytes"
 	"errors"
 	"fmt"
+	"os"
 	"runtime"
 	"sort"
 	"strconv"
@@ -287,6 +288,26 @@ func runScheduled(c *c20Case) (w *world20, trace []string, fanout []int, deadloc
 			}
 			return true
 		case <-time.After(10 * time.Second):
+			// the clock only decides when to look: it is a deadlock if a worker sits in a lock wait
+			// (twice in a row); a worker that is merely slow is running or runnable and is waited for
+			for tries := 0; tries < 30; tries++ {
+				if syncParked("conc.runScheduled.func") > 0 {
+					time.Sleep(time.Second)
+					if syncParked("conc.runScheduled.func") > 0 {
+						return false
+					}
+				}
+				select {
+				case m := <-s.parkCh:
+					if m.done {
+						active--
+					} else {
+						parked[m.worker] = m.site
+					}
+					return true
+				case <-time.After(10 * time.Second):
+				}
+			}
 			return false
 		}
 	}
@@ -656,7 +677,7 @@ func runOne20(c *c20Case) (ds []hx.Discrepancy, trace []string, fanout []int) {
 		return []hx.Discrepancy{{Kind: "setup", Detail: err.Error()}}, trace, fanout
 	}
 	if deadlock {
-		return []hx.Discrepancy{{Kind: "deadlock", Detail: "a worker neither reached its next yield point nor returned within 10s\n" + describe20(c, trace)}}, trace, fanout
+		return []hx.Discrepancy{{Kind: "deadlock", Detail: "a worker sits in a lock wait and neither reaches its next yield point nor returns\n" + describe20(c, trace)}}, trace, fanout
 	}
 	for _, id := range ids20 {
 		w.do(-2, Op20{Kind: "pub", ID: id})
@@ -812,22 +833,15 @@ func stress20(t *testing.T, run *hx.Run) {
 		start := make(chan struct{})
 		for i := range programs {
 			wg.Add(1)
-			go func(i int) {
-				defer wg.Done()
-				<-start
-				for _, op := range programs[i] {
-					w.do(i, op)
-				}
-			}(i)
+			go c20StressWorker(w, i, programs[i], start, &wg)
 		}
 		close(start)
 		done := make(chan struct{})
 		go func() { wg.Wait(); close(done) }()
-		select {
-		case <-done:
-		case <-time.After(60 * time.Second):
-			d := []hx.Discrepancy{{Kind: "deadlock", Detail: fmt.Sprintf("stress round %d with %d goroutines did not finish within 60s: %v", r, g, programs)}}
-			t.Fatalf("C20 violated: %s", run.ReportFailure(map[string]interface{}{"stress_programs": programs}, d))
+		if stuck := hx.AwaitOrStuck(done, "conc.c20StressWorker"); stuck != "" {
+			d := []hx.Discrepancy{{Kind: "deadlock", Detail: fmt.Sprintf("stress round %d with %d goroutines: %s\nprograms: %v", r, g, stuck, programs)}}
+			fmt.Printf("--- FAIL: C20 violated: %s\n", run.ReportFailure(map[string]interface{}{"stress_programs": programs}, d))
+			os.Exit(1)
 		}
 		// conditions 1-3 hold for any schedule (stamps are taken under the recorder's lock)
 		var probs []string
@@ -877,4 +891,40 @@ func getenv(k, d string) string {
 		return v
 	}
 	return d
+}
+
+// syncParked counts the goroutines with the marker frame that are parked in a lock wait.
+func syncParked(marker string) int {
+	buf := make([]byte, 8<<20)
+	buf = buf[:runtime.Stack(buf, true)]
+	n := 0
+	for _, g := range strings.Split(string(buf), "\n\n") {
+		if !strings.Contains(g, marker) {
+			continue
+		}
+		head := g
+		if i := strings.IndexByte(g, '\n'); i >= 0 {
+			head = g[:i]
+		}
+		i, j := strings.IndexByte(head, '['), strings.IndexByte(head, ']')
+		if i < 0 || j < i {
+			continue
+		}
+		state := head[i+1 : j]
+		if k := strings.IndexByte(state, ','); k >= 0 {
+			state = state[:k]
+		}
+		if strings.HasPrefix(state, "sync.Mutex") || strings.HasPrefix(state, "sync.RWMutex") || state == "semacquire" {
+			n++
+		}
+	}
+	return n
+}
+
+func c20StressWorker(w *world20, i int, program []Op20, start chan struct{}, wg *sync.WaitGroup) {
+	defer wg.Done()
+	<-start
+	for _, op := range program {
+		w.do(i, op)
+	}
 }
